@@ -12,7 +12,7 @@ def oracle(log):
     rec = []            # (request line, result) in effect since marker 0
     reclen = []
     expect = None
-    stats = dict(replays=0, unwinds=0)
+    stats = dict(replays=0, unwinds=0); prev_caps = None
     for ln in log.split('\n'):
         if ln.startswith('#replay-begin'):
             expect = list(rec); pos = 0; stats['replays'] += 1
@@ -32,6 +32,11 @@ def oracle(log):
         lhs, rhs = [x.strip() for x in head.split('=', 1)]
         caps = dict(kv.split('=') for kv in parts[2].split() if '=' in kv) if len(parts) > 2 else {}
         t = lhs.split()
+        # a move of the stack is not an operation on its memory: capacity and the block it would use next stay as they were
+        if t[0] == 'mv' and prev_caps and caps and (caps.get('cap'), caps.get('next')) != (prev_caps.get('cap'), prev_caps.get('next')):
+            msgs.append('moving the stack changed what it holds: capacity_left %s -> %s, next_capacity %s -> %s (blocks kept for reuse were lost)' % (prev_caps.get('cap'), caps.get('cap'), prev_caps.get('next'), caps.get('next')))
+        if caps:
+            prev_caps = caps
         if t[0] in ('a', 't'):
             res = rhs.split(' oom=')[0]
             if expect is not None:
